@@ -263,6 +263,27 @@ def _lifecycle(ctx: Ctx, model):
         if not any(c.func.name == stop_in for c in stops):
             ctx.fail(cons + "#stop", ci.loc(), f"{cons} is never stopped by {cn}.{stop_in}(): the "
                      f"worker outlives its owner")
+    # a worker never joins its own thread (RuntimeError: cannot join current thread)
+    F_ = fault_effects_of(model)
+    targets = {"_read_thread": ("node.peer", "PeerConnection.work_read_queue"),
+               "_write_thread": ("node.peer", "PeerConnection.work_write_queue"),
+               "_recv_queue_consumer": ("node.application", "ThreadingApplication._wait_for_recv_msg"),
+               "_resp_queue_consumer": ("node.application", "ThreadingApplication._wait_for_resp_msg"),
+               "_connection_thread": ("node.node", "Node._handle_connections"),
+               "_stat_collect_thread": ("node.node", "Node._collect_stats")}
+    for attr, (mod, q) in targets.items():
+        w = model.func(mod, q)
+        cons = f"{q}:never-joins-itself"
+        ctx.inst(cons)
+        for h in F_.reachable_funcs([w], depth=6):
+            if h.cls is None or h.cls is not w.cls and w.cls not in model.mro(h.cls):
+                continue
+            for n in A.walk_no_nested(h.node):
+                if isinstance(n, ast.Call) and A.call_name(n) == f"self.{attr}.join":
+                    ctx.fail(cons, h.loc(n), f"{h.qualname} joins {attr}, but it is reachable from that "
+                             f"thread's own target {q}: `RuntimeError: cannot join current thread` ends "
+                             f"the worker in the middle of {h.name}() (e.g. before the node has been "
+                             f"signalled to close the socket)")
     # blocking waits have time-outs; loops test the stop flag
     for w in _workers(model)[:6]:
         g = cfg_of(w)
